@@ -4,9 +4,9 @@ set -u
 ID="$1"; PID="$2"; TIER="${3:-quick}"
 VERIF="$(cd "$(dirname "$0")/.." && pwd)"
 cd /repo && git diff --quiet || { echo "/repo not clean"; exit 2; }
-git -C /repo apply "$VERIF/seeded/$ID/patch.diff" || { echo "patch does not apply"; exit 2; }
+git -C /repo apply "$VERIF/seeded/$ID/patch.diff" 2>/dev/null || git -C /repo apply --3way "$VERIF/seeded/$ID/patch.diff" 2>/dev/null || { echo "patch does not apply"; git -C /repo reset -q --hard HEAD; exit 2; }
 cd "$VERIF" && ./check "$PID" --tier "$TIER" > "/tmp/seedrun_${ID}_${PID}.log" 2>&1; RC=$?
-git -C /repo checkout -- .
+git -C /repo reset -q --hard HEAD
 echo "$ID $PID tier=$TIER rc=$RC $(grep -c '^VIOLATION' /tmp/seedrun_${ID}_${PID}.log) violation lines; $(grep -c HARNESS-ERROR /tmp/seedrun_${ID}_${PID}.log) harness errors"
 grep -A1 '^VIOLATION' "/tmp/seedrun_${ID}_${PID}.log" | head -6
 exit $RC
